@@ -28,7 +28,8 @@ var universe = []RS{
 	// an unknown action that sorts between the two known ones
 	{ResourceType: "repository", Resource: "a", Action: "pulls"},
 	{ResourceType: "other", Resource: "x", Action: "y"},
-	{ResourceType: "foo"},
+	// an opaque one-word scope that is spelt like the text of the unlimited scope
+	{ResourceType: "*"},
 	{ResourceType: "repository", Resource: "", Action: "pull"},
 	// an opaque one-word scope with more colons than the type:resource:action syntax has
 	{ResourceType: "urn:a:b:c"},
@@ -49,7 +50,8 @@ var outside = []RS{
 	{ResourceType: "repository", Resource: "a", Action: "unknown"},
 	{ResourceType: "repository", Resource: "ab", Action: "pull"},
 	{ResourceType: "fo"},
-	{ResourceType: "foo", Resource: "", Action: "x"},
+	{ResourceType: "foo"},
+	{ResourceType: "*", Resource: "", Action: "x"},
 }
 
 func class(r RS) string {
